@@ -21,6 +21,7 @@ type C14Op struct {
 	DNS  bool   `json:"dns"`
 	Ms   int    `json:"ms"`
 	Fail bool   `json:"fail"` // write: the outbound send fails (unreachable network, port 0, ...)
+	FailRelay bool `json:"fail_relay"` // reply: sending it on to the client fails (too large for the client's path, ...): that loses this reply, nothing else
 	Hold bool   `json:"hold"` // reply: still being relayed to the client while the next operation (a write) happens
 }
 
@@ -41,6 +42,9 @@ func genC14Hist(t *rapid.T) C14Hist {
 		}
 		if op.Kind == "write" {
 			op.Fail = rapid.IntRange(0, 5).Draw(t, "fail") == 0
+		}
+		if op.Kind == "reply" {
+			op.FailRelay = rapid.IntRange(0, 5).Draw(t, "failRelay") == 0
 		}
 		if op.Kind == "reply" && writes == 0 {
 			continue // nothing was sent yet: no target knows the outbound address
@@ -137,7 +141,7 @@ func runC14Hist(h C14Hist, info *kit.Info) *kit.Finding {
 		}
 		return int64(time.Duration(h.TimeoutMs) * time.Millisecond)
 	}
-	writes, replies := 0, 0
+	writes, replies, relayed := 0, 0, 0
 	firstDNS, hasDNS, hasPlain, fastCandidate := false, false, false, false
 	fastIdx := -1
 	latest := int64(0)
@@ -173,6 +177,9 @@ func runC14Hist(h C14Hist, info *kit.Info) *kit.Finding {
 			}
 		case "reply":
 			replies++
+			if !op.FailRelay {
+				relayed++
+			}
 			allowed := op.DNS && writes == 1 && firstDNS && replies == 1
 			if allowed {
 				fastCandidate, fastIdx = true, i
@@ -211,8 +218,8 @@ func runC14Hist(h C14Hist, info *kit.Info) *kit.Finding {
 	if !r.Closed {
 		return kit.Violation("nat:socket-not-closed", "the outbound socket was not closed after expiry")
 	}
-	if r.Replies != replies {
-		return kit.Violation("nat:reply-lost", "%d replies injected, %d relayed to the client", replies, r.Replies)
+	if r.Replies != relayed {
+		return kit.Violation("nat:reply-lost", "%d replies injected (%d of them unsendable to the client), %d relayed to the client", replies, replies-relayed, r.Replies)
 	}
 	info.NonTrivial = hasDNS && hasPlain || fastCandidate
 	info.Steps = len(h.Ops)
